@@ -137,17 +137,23 @@ def make_body(rounds, coarse):
         trace = []
         for rnd in range(rounds):
             # arbitrary J-state: the cache holds a symbolic subset of fully resolved configurations
+            # (after a mutator of an earlier round left a wrongly typed option a query may raise: nothing is cached then)
+            def prefill(c, cid, pl):
+                try:
+                    return query(c, cid, pl)
+                except Exception:
+                    return None
             if coarse:
                 pls = ctx.choice('cached_platforms%d' % rnd, [['default', 'p'], ['default'], ['p']])
                 for cid in list(concrete._component_dictionary):
                     if ctx.flag('cached%d:%s%d' % (rnd, cid[1], cid[0])):
                         for pl in pls:
-                            query(concrete, cid, pl)
+                            prefill(concrete, cid, pl)
             else:
                 for cid in list(concrete._component_dictionary):
                     for pl in PLATFORMS:
                         if ctx.flag('cached%d:%s%d:%s' % (rnd, cid[1], cid[0], pl)):
-                            query(concrete, cid, pl)
+                            prefill(concrete, cid, pl)
             m, err = apply_mutator(ctx, concrete, cfg, rnd)
             trace.append((m, err))
             fresh = FlowIRConcrete(concrete.raw(), active, {})
